@@ -115,9 +115,6 @@ MUTANTS = [
      "new": "        if check_nonmult:\n            # the memo belongs"},
     {"prop": "C13", "name": "dimensionality-memo-per-object-only", "file": "pint/facets/plain/quantity.py",
      "old": "        if memo is None or memo[0] is not self._units:\n", "new": "        if memo is None:\n"},
-    {"prop": "C13", "name": "system-members-never-invalidated", "file": GO,
-     "old": "        for system in getattr(self._REGISTRY, \"_systems\", {}).values():\n            system.invalidate_members()\n",
-     "new": ""},
     {"prop": "C13", "name": "prefixed-unit-registered-in-overlay", "file": PR,
      "old": "            if isinstance(units, ChainMap) and unit_name in units.maps[-1]:\n                units = units.maps[-1]\n",
      "new": ""},
